@@ -118,6 +118,49 @@ def _box_prism(lo, hi):
     ]
 
 
+PLANE_NORMALS = [((0, 0, 1), 1), ((0, 0, -1), 1), ((1, 0, 0), 1), ((0, 1, 0), 1), ((-1, 0, 0), 1),
+                 ((0, -1, 0), 1), ((3, 4, 12), 13), ((0, 3, 4), 5), ((3, 0, 4), 5), ((3, 4, 0), 5),
+                 ((-3, 4, 12), 13), ((4, -3, 12), 13), ((0, -3, 4), 5), ((4, 0, -3), 5)]
+PLANE_DIRS = [(1, 0), (-1, 0), (0, 1), (0, -1), (1, 1), (-1, 1), (1, -1), (-1, -1), (2, 1), (-1, 2),
+              (1, -2), (-2, -1), (3, 1), (-1, 3), (-3, -1), (1, -3)]
+
+
+def _plane_basis(N):
+    a, b, c = N
+    u = (b, -a, 0) if (a or b) else (1, 0, 0)
+    w = tuple(v3cross(N, u))
+    return u, w
+
+
+def exact_cyclic_order(pts, centre, N, start):
+    """Indices in counter-clockwise order (seen against N) around centre, starting at `start`;
+    None if two points share a direction or a point sits on the centre."""
+    d = [v3sub(p, centre) for p in pts]
+    if any(not any(x) for x in d):
+        return None
+    ref = d[start]
+
+    def crossn(x, y):
+        return v3dot(N, v3cross(x, y))
+
+    def half(x):
+        c = crossn(ref, x)
+        return 0 if (c > 0 or (c == 0 and v3dot(ref, x) > 0)) else 1
+    import functools
+
+    def cmp(i, j):
+        hi, hj = half(d[i]), half(d[j])
+        if hi != hj:
+            return hi - hj
+        c = crossn(d[i], d[j])
+        return -1 if c > 0 else (1 if c < 0 else 0)
+    order = sorted(range(len(pts)), key=functools.cmp_to_key(cmp))
+    for k in range(len(order) - 1):
+        if cmp(order[k], order[k + 1]) == 0:
+            return None
+    return order
+
+
 def _quad_tris(q):
     return [[q[0], q[1], q[2]], [q[0], q[2], q[3]]]
 
@@ -163,12 +206,16 @@ class C31(Prop):
         "point_in_polygon: strictly left of all edges => inside, separated from all vertices "
         "by a line => outside (any vertex list), hence both directions for convex ccw "
         "polygons (C31_pip_convex), and equality with the exact even-odd crossing test on ALL "
-        "integer points of [-2,8]^2 for five fixed non-convex polygons (finite-domain "
-        "vm_compute proof); sort_point_pairs: whenever the call succeeds the index list is a "
+        "integer points of [-2,8]^2 for seven fixed non-convex simple polygons (finite-domain "
+        "vm_compute proofs); sort_point_pairs: whenever the call succeeds the index list is a "
         "permutation, every column is an input pair up to flipping, consecutive columns chain "
-        "and the cycle closes (C31_chain_valid); sort_points_on_line: permutation, keys "
+        "and the cycle closes (C31_chain_valid), and in circular mode every input that is a "
+        "single cycle with distinct labels, in any storage order and orientation, succeeds and "
+        "yields its traversal (C31_chain_complete_cycle); sort_points_on_line: permutation, keys "
         "non-decreasing, and for collinear input a + s_i v the line parameter is monotone "
-        "along the output (C31_sort_on_line_monotone); point_in_polyhedron: a point in the "
+        "along the output (C31_sort_on_line_monotone); points_are_planar with the normal from "
+        "a modelled compute_normal accepts every coplanar set (C31_planar_auto); "
+        "point_in_polyhedron: a point in the "
         "supporting plane of ANY triangle is answered 'outside' (C31_polyhedron_coplanar_"
         "outside), which refutes exactness on a triangulated L-prism (C31_polyhedron_refuted, "
         "open finding).  Every modelled function is tied to /repo on each run (Coq recomputes "
@@ -176,12 +223,12 @@ class C31(Prop):
         "triangulated polyhedra, whether solid_angle raised and the exact ray-parity answer).")
     level_note = (
         "Trusted: Coq kernel + vm_compute; harness generator/emitter/oracle; squared forms of "
-        "the norm tests; points_are_planar only with an explicit normal; sort_points_on_line "
+        "the norm tests; sort_points_on_line "
         "is compared through its sort key (the rotation is not modelled; orientation rule "
         "taken from rotation_matrix's zero-axis case); pip_ref / pih_ref are exact reference "
         "routines written in Coq.  NOT proved: point_in_polygon for ALL simple non-convex "
-        "polygons (finite-domain proofs + oracle instead); that sort_point_pairs succeeds on "
-        "every single chain/cycle (oracle); the solid-angle sum of point_in_polyhedron "
+        "polygons (finite-domain proofs + oracle instead); completeness of sort_point_pairs "
+        "in the non-circular (chain) mode (tie + oracle); the solid-angle sum of point_in_polyhedron "
         "(arctan2; exact ray-parity reference in the tie, oracle; one open finding).")
     technique = ("Coq proof (induction over polygons/loops, nra over Q, finite-domain vm_compute) + "
                  "vm_compute execution correspondence + exact rational oracles")
@@ -195,7 +242,9 @@ class C31(Prop):
     trusted = ["squared-form tolerance tests (|v| <= tol*d  as  v.v <= tol^2 d^2)",
                "np.argsort/np.roll/np.bincount semantics as transcribed"]
     assumptions = ["integer coordinates, |coord| <= ~12; tolerances 0, 1e-5 (collinear/planar) "
-                   "with inputs either exactly degenerate or far (>= 10x) from the band",
+                   "with inputs either exactly degenerate or far (>= 10x) from the band; 30% of "
+                   "the collinear/planar cases use a random tolerance in [0.002, 1.5] (in-band "
+                   "behaviour: tie only, oracle silent)",
                    "simple polygons for the inside test (checked exactly by the generator)"]
 
     def __init__(self):
@@ -281,8 +330,12 @@ class C31(Prop):
                           for y in range(min(ys) - 1, max(ys) + 2)]
                 if len(allpts) > 60:
                     allpts = rng.sample(allpts, 60)
-                yield {"fn": "pip", "poly": poly, "pts": allpts, "default": rng.random() < 0.5,
-                       "shape": kind}
+                case = {"fn": "pip", "poly": poly, "pts": allpts, "default": rng.random() < 0.5,
+                        "shape": kind}
+                if rng.random() < 0.1:
+                    case["pts"] = [rng.choice(allpts)]
+                    case["p1d"] = True                 # a single point passed as shape (2,)
+                yield case
             elif r < 0.36:
                 poly, kind = self._polygon(rng)
                 yield {"fn": "ccw_polygon", "poly": poly}
@@ -304,7 +357,10 @@ class C31(Prop):
                     pts[i] = [x + y for x, y in zip(pts[i], rng.choice([[1, 0, 0], [0, 2, 0], [0, 0, -1]]))]
                 elif mode == "random":
                     pts = [[rng.randint(-3, 3) for _ in range(3)] for _ in range(m)]
-                yield {"fn": "collinear", "pts": pts}
+                case = {"fn": "collinear", "pts": pts}
+                if rng.random() < 0.3:
+                    case["tol"] = round(rng.uniform(0.002, 1.5), 4)
+                yield case
             elif r < 0.62:
                 nrm = rng.choice([[0, 0, 1], [1, 2, 2], [1, 0, 0], [1, 1, 0], [2, -1, 3], [0, 3, 4]])
                 u = v3cross(nrm, [1, 0, 0]) if (nrm[1] or nrm[2]) else v3cross(nrm, [0, 1, 0])
@@ -324,9 +380,12 @@ class C31(Prop):
                         pts, _ = self._line_pts(rng, rng.randint(3, 5))     # collinear: RuntimeError
                     elif mode < 0.2:
                         pts = pts[:rng.randint(1, 2)]                        # too few: ValueError
-                    yield {"fn": "planar_auto", "pts": pts}
+                    case = {"fn": "planar_auto", "pts": pts}
                 else:
-                    yield {"fn": "planar", "pts": pts, "normal": [scale * x for x in nrm]}
+                    case = {"fn": "planar", "pts": pts, "normal": [scale * x for x in nrm]}
+                if rng.random() < 0.3:
+                    case["tol"] = round(rng.uniform(0.002, 1.5), 4)
+                yield case
             elif r < 0.72:
                 if rng.random() < 0.5:
                     lo = [rng.randint(-3, 0) for _ in range(3)]
@@ -363,6 +422,27 @@ class C31(Prop):
                     valid = False
                 yield {"fn": "sort_pairs", "lines": lines, "check": check, "circ": is_circ,
                        "valid": valid}
+            elif r < 0.885:
+                N, L = rng.choice(PLANE_NORMALS + PLANE_NORMALS[:2])
+                u, w = _plane_basis(N)
+                c0 = [rng.randint(-3, 3) for _ in range(3)]
+                dirs = rng.sample(PLANE_DIRS, rng.randint(3, 8))
+                if rng.random() < 0.5 and (0, -1) not in dirs:
+                    dirs[0] = (0, -1)
+                pts = []
+                for (al, be) in dirs:
+                    k = rng.randint(1, 3)
+                    pts.append([c0[i] + k * (al * u[i] + be * w[i]) for i in range(3)])
+                rng.shuffle(pts)
+                if all(v3dot(v3cross(v3sub(p, pts[0]), v3sub(q, pts[0])), N) == 0
+                       for p in pts for q in pts):
+                    pts.append([c0[i] + u[i] + 2 * w[i] for i in range(3)])
+                sc = rng.choice([1, 1, 2, 5])
+                case = {"fn": "sort_plane", "pts": pts, "centre": c0, "N": list(N), "L": L,
+                        "normal": [sc * x for x in N]}
+                if N[0] == 0 and N[1] == 0 and rng.random() < 0.4:
+                    case["normal"] = None            # compute_normal gives +-e_z: same frame
+                yield case
             elif r < 0.92:
                 m = rng.randint(1, 6)
                 pts, v = self._line_pts(rng, m)
@@ -414,17 +494,24 @@ class C31(Prop):
             r = gpc.is_ccw_polyline(p1, p2, p3, tol=case["tol"], default=case["default"])
             return bool(r[0])
         if fn == "pip":
-            r = gpc.point_in_polygon(np.array(case["poly"], dtype=float).T,
-                                     np.array(case["pts"], dtype=float).T, default=case["default"])
+            pp_ = np.array(case["pts"], dtype=float).T
+            if case.get("p1d"):
+                pp_ = pp_[:, 0]
+            r = gpc.point_in_polygon(np.array(case["poly"], dtype=float).T, pp_,
+                                     default=case["default"])
             return [bool(x) for x in r]
         if fn == "collinear":
-            return bool(gpc.points_are_collinear(np.array(case["pts"], dtype=float).T))
+            return bool(gpc.points_are_collinear(np.array(case["pts"], dtype=float).T,
+                                                 **({"tol": case["tol"]} if "tol" in case else {})))
         if fn == "planar":
             return bool(gpc.points_are_planar(np.array(case["pts"], dtype=float).T,
-                                              normal=np.array(case["normal"], dtype=float)))
+                                              normal=np.array(case["normal"], dtype=float),
+                                              **({"tol": case["tol"]} if "tol" in case else {})))
         if fn == "planar_auto":
             try:
-                return {"ok": bool(gpc.points_are_planar(np.array(case["pts"], dtype=float).T))}
+                return {"ok": bool(gpc.points_are_planar(
+                    np.array(case["pts"], dtype=float).T,
+                    **({"tol": case["tol"]} if "tol" in case else {})))}
             except ValueError:
                 return {"err": "PValueErr"}
             except RuntimeError:
@@ -455,6 +542,11 @@ class C31(Prop):
             faces = [np.array(f, dtype=float).T for f in case["faces"]]
             pts = np.array([[float(F(x)) for x in p] for p in case["pts"]]).T
             return [bool(x) for x in gpc.point_in_polyhedron(faces, pts)]
+        if fn == "sort_plane":
+            nrm = None if case["normal"] is None else np.array(case["normal"], dtype=float)
+            r = sort_points.sort_point_plane(np.array(case["pts"], dtype=float).T,
+                                             np.array(case["centre"], dtype=float), nrm)
+            return [int(i) for i in r]
         if fn == "polyh_tri":
             faces = [np.array(t, dtype=float).T for t in case["tris"]]
             pts = np.array([[float(F(x)) for x in q] for q in case["pts"]]).T
@@ -523,6 +615,8 @@ class C31(Prop):
                 if e != "boundary" and e != r:
                     return (f"point {p}: exact inside test {e}, point_in_polygon returned {r} "
                             f"(polygon {case['poly']})")
+        elif fn in ("collinear", "planar", "planar_auto") and "tol" in case:
+            self._stat(fn + "-large-tol")          # in-band: tie only
         elif fn == "collinear":
             pts = case["pts"]
             if len(pts) >= 3:
@@ -573,6 +667,17 @@ class C31(Prop):
                         return f"columns {k},{k + 1} do not chain: {s}"
                 if case["circ"] and s[0][0] != s[-1][1]:
                     return f"cycle not closed: {s}"
+        elif fn == "sort_plane":
+            pts = case["pts"]
+            if sorted(res) != list(range(len(pts))):
+                return f"{res} is not a permutation"
+            ccw = exact_cyclic_order(pts, case["centre"], case["N"], res[0])
+            if ccw is not None:
+                cw = [ccw[0]] + ccw[:0:-1]
+                if res != ccw and res != cw:
+                    return (f"order {res} is not an angular ordering around the centre "
+                            f"(exact counter-clockwise order from its first point: {ccw}); "
+                            f"points {pts}, centre {case['centre']}, normal {case['N']}")
         elif fn == "sort_line":
             pts = case["pts"]
             if sorted(res) != list(range(len(pts))):
@@ -618,14 +723,15 @@ class C31(Prop):
             return (f"bools_eqb {clist(res, cbool)} (map (point_in_polygon {cbool(case['default'])} "
                     f"{clist(case['poly'], p2)}) {clist(case['pts'], p2)})")
         if fn == "collinear":
-            return f"Bool.eqb {cbool(res)} (points_are_collinear {cq(TOL5)} {clist(case['pts'], p3)})"
-        if fn == "planar":
-            return (f"Bool.eqb {cbool(res)} (points_are_planar {cq(TOL5)} {p3(case['normal'])} "
+            return (f"Bool.eqb {cbool(res)} (points_are_collinear {cq(case.get('tol', TOL5))} "
                     f"{clist(case['pts'], p3)})")
+        if fn == "planar":
+            return (f"Bool.eqb {cbool(res)} (points_are_planar {cq(case.get('tol', TOL5))} "
+                    f"{p3(case['normal'])} {clist(case['pts'], p3)})")
         if fn == "planar_auto":
             impl = res["err"] if "err" in res else f"(POk {cbool(res['ok'])})"
-            return (f"agree_pres {impl} (points_are_planar_auto {cq(TOL5)} {cq(TOL5)} "
-                    f"{clist(case['pts'], p3)})")
+            return (f"agree_pres {impl} (points_are_planar_auto {cq(TOL5)} "
+                    f"{cq(case.get('tol', TOL5))} {clist(case['pts'], p3)})")
         if fn == "halfspace":
             impl = f"(HErr {res['err']})" if "err" in res else f"(HOk {clist(res['ok'], cbool)})"
             return (f"agree_hres {impl} (half_space_int {clist(case['n'], p3)} "
@@ -637,6 +743,15 @@ class C31(Prop):
                     f"{cbool(case['check'])} {cbool(case['circ'])})")
         if fn == "sort_line":
             return f"agree_line_sort {clist(res, cnat)} {clist(case['pts'], p3)}"
+        if fn == "sort_plane":
+            if exact_cyclic_order(case["pts"], case["centre"], case["N"], 0) is None:
+                return None                      # equal directions: np.argsort ties
+            nh = [F(x, case["L"]) for x in case["N"]]
+            s2 = nh[0] * nh[0] + nh[1] * nh[1]
+            sn, sd = math.isqrt(s2.numerator), math.isqrt(s2.denominator)
+            assert sn * sn == s2.numerator and sd * sd == s2.denominator
+            return (f"agree_plane {clist(res, cnat)} {p3(nh)} {cq(F(sn, sd))} "
+                    f"{clist(case['pts'], p3)} {p3(case['centre'])}")
         if fn == "polyh_tri":
             tris = clist(case["tris"], lambda t: f"({p3(t[0])}, {p3(t[1])}, {p3(t[2])})")
             terms = [f"agree_pih {cbool(ra)} {cbool(ins)} tol10 tris {p3([F(x) for x in q])}"
@@ -648,6 +763,12 @@ class C31(Prop):
         t = self.coq_case(case, res)
         if t is None:
             return None
+        if case["fn"] == "sort_plane":
+            nh = [F(x, case["L"]) for x in case["N"]]
+            s2 = nh[0] * nh[0] + nh[1] * nh[1]
+            sv = F(math.isqrt(s2.numerator), math.isqrt(s2.denominator))
+            return (f"(sort_point_plane {p3(nh)} {cq(sv)} {clist(case['pts'], p3)} {p3(case['centre'])}, "
+                    f"plane_keys {p3(nh)} {cq(sv)} {clist(case['pts'], p3)} {p3(case['centre'])})")
         if case["fn"] == "polyh_tri":
             tris = clist(case["tris"], lambda t_: f"({p3(t_[0])}, {p3(t_[1])}, {p3(t_[2])})")
             pts = clist([[F(x) for x in q] for q in case["pts"]], p3)
@@ -667,7 +788,7 @@ class C31(Prop):
             return "ok" in res and len(case["pts"]) > 0
         if fn == "sort_pairs":
             return len(case["lines"]) >= 3
-        if fn in ("collinear", "sort_line"):
+        if fn in ("collinear", "sort_line", "sort_plane"):
             return len(case["pts"]) >= 3
         return True
 
